@@ -7,10 +7,119 @@ against coq/Model/C18_Logbook.v.
 """
 import copy
 import itertools
+import os
 import pickle
 import re
 
+import vlib
 from vlib import cz, czl, cbool, copt, clist
+
+# ----------------------------------------------------------------------------
+# tie (T): regenerate coq/Gen/C18_gen.v from the working tree (harness/c18_py2coq.py)
+# ----------------------------------------------------------------------------
+GEN = os.path.join(vlib.COQ, "Gen", "C18_gen.v")
+METHOD_OF = {"record": "Logbook.record", "select": "Logbook.select", "pop": "Logbook.pop", "delitem": "Logbook.__delitem__",
+             "stream": "Logbook.stream", "st_register": "Statistics.register", "st_compile": "Statistics.compile",
+             "ms_compile": "MultiStatistics.compile", "ms_register": "MultiStatistics.register"}
+
+
+def _typechecks(txt):
+    """does the regenerated text compile?  -> (ok, line number of the first error or None)"""
+    import subprocess
+    import tempfile
+    d = tempfile.mkdtemp(prefix="c18gen_")
+    try:
+        fn = os.path.join(d, "C18_gen_probe.v")
+        with open(fn, "w") as f:
+            f.write(txt)
+        p = subprocess.run(["timeout", "300", "coqc", "-Q", vlib.COQ, "DV", "-w", "none", fn], cwd=d,
+                           stdout=subprocess.PIPE, stderr=subprocess.STDOUT, text=True)
+        if p.returncode == 0:
+            return True, None
+        m = re.search(r'line (\d+), characters', p.stdout)
+        return ("Error" not in p.stdout), (int(m.group(1)) if m else None)   # killed without a Coq error: no verdict
+    finally:
+        import shutil
+        shutil.rmtree(d, ignore_errors=True)
+
+
+def regen(repo=None):
+    """Returns (ok, message, status) -- status: method key -> None (translated) | Refuse (placeholder = hand model's
+    form of the method); ok is False when nothing could be translated.  A regenerated definition that does not
+    type-check counts as a refusal of that method."""
+    import c18_py2coq
+    repo = repo or vlib.REPO
+    forced = tuple(x for x in os.environ.get("C18_FORCE_REFUSE", "").split(",") if x)
+    extra = {}
+    try:
+        txt, status = c18_py2coq.translate_repo(repo, forced)
+        if os.path.exists(os.path.join(vlib.COQ, "Model", "C18_GenRt.vo")):
+            for _ in range(len(status)):
+                ok, line = _typechecks(txt)
+                if ok:
+                    break
+                # find the definition the error is in, refuse it, translate again
+                lines = txt.split("\n")[:line or 0]
+                keys = [k for k in c18_py2coq.ORDER
+                        if any(l.startswith(c18_py2coq.FUNCS[k][6].split(" (")[0].split(" {")[0] + " ") for l in lines)]
+                bad = keys[-1] if keys else None
+                if bad is None or bad in extra:
+                    raise RuntimeError("regenerated text does not compile (line %s)" % line)
+                extra[bad] = c18_py2coq.Refuse("FunctionDef", "the regenerated definition does not type-check")
+                txt, status = c18_py2coq.translate_repo(repo, forced + tuple(extra))
+                for k, v in extra.items():
+                    status[k] = v
+    except Exception as e:  # noqa  (a translator crash is a refusal of everything: fail closed)
+        r = c18_py2coq.Refuse("Module", "translator error %s: %s" % (type(e).__name__, e))
+        txt, status = c18_py2coq.translate_source("\x00")     # all placeholders
+        status = {k: r for k in status}
+    with vlib.BuildLock():
+        os.makedirs(os.path.dirname(GEN), exist_ok=True)
+        old = open(GEN).read() if os.path.exists(GEN) else None
+        if old != txt:
+            with open(GEN, "w") as f:
+                f.write(txt)
+    done = [METHOD_OF[k] for k, v in status.items() if v is None]
+    refused = ["%s (%s)" % (METHOD_OF[k], v) for k, v in status.items() if v is not None]
+    msg = "regenerated: %s" % (", ".join(done) or "nothing")
+    if refused:
+        msg += "; translator refused: " + "; ".join(refused)
+    return bool(done), msg, status
+
+
+def tie_T(run):
+    """Regenerate, re-prove `regenerated = hand model` and the theorems on the regenerated definitions.
+    Returns (check function of the correspondence, requires, translated-but-not-proved flag)."""
+    ok, msg, status = regen()
+    refused = {k: v for k, v in status.items() if v is not None}
+    done = [METHOD_OF[k] for k, v in status.items() if v is None]
+    run.extra_cov["regenerated_functions"] = done
+    run.extra_cov["translator_refused"] = {METHOD_OF[k]: str(v) for k, v in refused.items()}
+    for k, v in refused.items():
+        run.notes.append("tie: correspondence-only (translator refused %s at line %s in %s: %s)"
+                         % (v.node, v.line, METHOD_OF[k], v.why))
+    if not ok:
+        run.extra_cov["tie"] = "correspondence-only (%s)" % msg
+        return "check", [], False
+    gen_ok = run.build_props(props="Props/C18_gen.v", extra=["Corr/C18_gen.v"])
+    if gen_ok:
+        run.notes.append("tie: regenerated (%s)" % ", ".join(done))
+        run.extra_cov["tie"] = ("translation (regenerated methods proved equal to the hand model: %s) + correspondence%s"
+                                % (", ".join(done), "; correspondence-only for " + ", ".join(
+                                    sorted(METHOD_OF[k] for k in refused)) if refused else ""))
+        run.trusted.append("translator harness/c18_py2coq.py and its signature table (source text -> coq/Gen/C18_gen.v) with "
+                           "the run-time vocabulary coq/Model/C18_GenRt.v (state-and-exception monad, list.pop / list.append / "
+                           "self.chapters / slice.indices primitives, the unmodelled text self.__str__); the regenerated methods "
+                           "are proved equal to the hand model (Proofs/C18_gen_equiv.v) and evaluated against the implementation "
+                           "on every run")
+        return "check_both", ["From DV Require Import Corr.C18_gen."], False
+    run.extra_cov["tie"] = "translator succeeded but the regenerated definitions are no longer (provably) the model"
+    try:        # keep the offending text for the replay
+        with open(os.path.join(run.rundir, "C18_gen.v.broken"), "w") as f:
+            f.write(open(GEN).read())
+    except OSError:
+        pass
+    return "check", [], True
 
 # ----------------------------------------------------------------------------
 # names <-> integer codes (the model's `name`)
@@ -982,6 +1091,8 @@ def main(run):
     phases = {}
     t0 = time.time()
     run.build_props()
+    # ---- tie (T): regenerate Gen/C18_gen.v from the working tree, re-prove `regenerated = model` and the theorems
+    gen_check, gen_reqs, gen_unproved = tie_T(run)
     phases["build"] = round(time.time() - t0, 1)
     rng = run.rng
 
@@ -1007,6 +1118,7 @@ def main(run):
         t, c = trie_cases(run, tools, "two", 5, subset=SMALL)
         terms += t
         cases += c
+    n_two = len(terms)
     for kind in ("flat", "sub", "three"):
         # sub / three: the caller keeps one dictionary object per chapter (and sub-chapter), cleared and refilled
         t, c = trie_cases(run, tools, kind, run.scale(3, 4), prefix_len=run.scale(1, 2),
@@ -1015,7 +1127,13 @@ def main(run):
         cases += c
     phases["exhaustive_python"] = round(time.time() - t0 - phases["build"], 1)
     t1 = time.time()
-    run.correspond("exhaustive", "C18", terms, cases, shard=max(1, (len(terms) + 15) // 16))
+    # the regenerated definitions are evaluated next to the hand model on the smaller exhaustive groups, on all
+    # random histories and on all statistics cases (check_both); the large two-chapter trie uses the hand model alone
+    nbig = n_two
+    run.correspond("exhaustive", "C18", terms[:nbig], cases[:nbig], shard=max(1, (nbig + 15) // 16))
+    run.correspond("exhaustive_small", "C18", terms[nbig:], cases[nbig:], check=gen_check, requires=gen_reqs,
+                   shard=max(1, (len(terms) - nbig + 7) // 8))
+    gen_evaluated = len(terms) - nbig if gen_check != "check" else 0
     phases["exhaustive_coq"] = round(time.time() - t1, 1)
     t1 = time.time()
 
@@ -1028,7 +1146,8 @@ def main(run):
         uniform = rng.random() < 0.85
         ops, shape = rand_history(rng, uniform)
         hist_case(run, tools, ops, uniform, "random", terms, cases, sample=it < 3, shape=shape)
-    run.correspond("random", "C18", terms, cases)
+    run.correspond("random", "C18", terms, cases, check=gen_check, requires=gen_reqs)
+    gen_evaluated += len(terms) if gen_check != "check" else 0
     phases["random"] = round(time.time() - t1, 1)
     t1 = time.time()
 
@@ -1036,6 +1155,8 @@ def main(run):
     terms, cases = [], []
     stats_cases(run, tools, run.scale(300, 4000), terms, cases)
     statslog_cases(run, tools, run.scale(150, 2000), terms, cases)
-    run.correspond("statistics", "C18", terms, cases)
+    run.correspond("statistics", "C18", terms, cases, check=gen_check, requires=gen_reqs)
+    gen_evaluated += len(terms) if gen_check != "check" else 0
+    run.extra_cov["cases_also_evaluated_on_regenerated_definitions"] = gen_evaluated
     phases["statistics"] = round(time.time() - t1, 1)
     run.extra_cov["phase_seconds"] = phases
